@@ -417,6 +417,9 @@ const SHAPES: &[(&str, &str)] = &[
 	("object-inheritance", "local f(n) = if n == 0 then { v: 0 } else f(n - 1) + { v: super.v + 1 }; f(N).v"),
 	("lazy-accumulator", "local f(n, acc) = if n == 0 then acc else f(n - 1, acc + 1); f(N, 0)"),
 	("array-elements", "local f(n) = if n == 0 then [0] else [f(n - 1)[0] + 1]; f(N)[0]"),
+	("comprehension-elements", "local f(n) = if n == 0 then [0] else [f(n - 1)[0] + 1 for _ in [0]]; f(N)[0]"),
+	("object-fields", "local f(n) = if n == 0 then { a: 0 } else { a: f(n - 1).a + 1 }; f(N).a"),
+	("object-comprehension-fields", "local f(n) = if n == 0 then { a: 0 } else { [k]: f(n - 1).a + 1 for k in ['a'] }; f(N).a"),
 	("string-concat", "local f(n) = if n == 0 then '' else 'a' + f(n - 1); std.length(f(N))"),
 	("local-chain", "local f(n) = local m = n - 1; if n == 0 then 0 else 1 + f(m); f(N)"),
 ];
@@ -429,6 +432,10 @@ fn sweep_points(run: &Run) -> Vec<(usize, usize, usize, bool)> {
 	let mut v = vec![];
 	for s in 0..SHAPES.len() {
 		for l in limits(run) {
+			// shapes of the recorded finding K_LAZY are not stopped at all: deep instances only cost time and memory
+			if LAZY_MEMBER_SHAPES.contains(&SHAPES[s].0) && l > 512 {
+				continue;
+			}
 			for (n, ok) in [(l / 32, true), (l / 16, true), (2 * l, false), (16 * l, false)] {
 				v.push((s, l, n.max(1), ok));
 			}
@@ -436,11 +443,16 @@ fn sweep_points(run: &Run) -> Vec<(usize, usize, usize, bool)> {
 	}
 	v
 }
-fn sweep_case(s: usize, l: usize, n: usize, must_succeed: bool) -> CaseOut {
+pub const K_LAZY: &str = "C04-recursion-through-lazy-members-not-limited";
+/// shapes whose depth grows only by forcing lazy members (recorded finding K_LAZY: they are not counted as frames)
+const LAZY_MEMBER_SHAPES: &[&str] = &["array-elements", "map-callback", "comprehension-elements", "object-fields", "object-comprehension-fields"];
+
+fn sweep_case(run: &Run, s: usize, l: usize, n: usize, must_succeed: bool) -> CaseOut {
 	let (name, tmpl) = SHAPES[s];
 	let code = tmpl.replace('N', &n.to_string());
 	let text = format!("[{name}, frame limit {l}, depth {n}] {code}");
 	let mut problems = vec![];
+	let mut known_hit = false;
 	for parser in ["ir", "peg"] {
 		let (out, canary) = eval(&code, &Cfg { parser, max_stack: l, ..Cfg::default() }, 300);
 		crashes(&format!("parser {parser}"), &out, &canary, &mut problems);
@@ -453,7 +465,10 @@ fn sweep_case(s: usize, l: usize, n: usize, must_succeed: bool) -> CaseOut {
 			(Out::Err(k, m), true) => problems.push(format!("recursion of depth {n}, well below the frame limit {l}, failed: [{k}] {}", clipn(m, 200))),
 			(Out::Err(k, _), false) if k == "StackOverflow" => {}
 			(Out::Err(k, m), false) => problems.push(format!("runaway recursion (depth {n}, frame limit {l}) ended with [{k}] {} instead of the stack overflow error", clipn(m, 200))),
+			// recorded finding: recursion through lazy members is not counted; the value must still be the right one
+			(Out::Val(v), false) if LAZY_MEMBER_SHAPES.contains(&name) && run.is_known(K_LAZY) && v.trim() == n.to_string() => known_hit = true,
 			(Out::Val(v), false) => problems.push(format!("recursion of depth {n} succeeded ({}) although the frame limit is {l}", clipn(v, 50))),
+			(Out::Resource(_), false) if LAZY_MEMBER_SHAPES.contains(&name) && run.is_known(K_LAZY) => known_hit = true,
 			(Out::Resource(w), _) => return CaseOut::discard(text, &format!("resource: {w}")),
 			(Out::Infra(w), _) => return CaseOut::discard(text, &format!("harness: {w}")),
 			_ => {}
@@ -461,7 +476,11 @@ fn sweep_case(s: usize, l: usize, n: usize, must_succeed: bool) -> CaseOut {
 	}
 	let cls = format!("sweep:{}", if must_succeed { "below-limit" } else { "above-limit" });
 	if problems.is_empty() {
-		CaseOut::pass(text, true).class(cls)
+		let mut c = CaseOut::pass(text, true).class(cls);
+		if known_hit {
+			c.verdict = Verdict::Known(K_LAZY.to_owned());
+		}
+		c
 	} else {
 		CaseOut::fail(text, problems.join("\n")).class(cls)
 	}
@@ -706,6 +725,10 @@ fn depth_case(nest: bool, i: usize, d: usize) -> CaseOut {
 
 /// reproducer text of the recorded finding: "<shape> <depth>"
 fn known_case(run: &Run, replay: &str) -> CaseOut {
+	if let Some(s) = SHAPES.iter().position(|s| s.0 == replay.trim()) {
+		// reproducer of the recursion finding: that shape, 16 times deeper than a frame limit of 50
+		return sweep_case(run, s, 50, 800, false);
+	}
 	let mut it = replay.split_whitespace();
 	let shape = it.next().unwrap_or("brackets");
 	let d: usize = it.next().and_then(|x| x.parse().ok()).unwrap_or(100_000);
@@ -756,7 +779,7 @@ pub fn run(run: &Run) {
 	let sw = sweep_points(run);
 	run.enumerate("recursion-sweep", sw.len() as u64, |i| {
 		let (s, l, n, ok) = sw[i as usize];
-		sweep_case(s, l, n, ok)
+		sweep_case(run, s, l, n, ok)
 	});
 	mark("recursion-sweep");
 	run.explore("self-dependent", run.tier.pick(6000, 100_000), 8..=40, cycle_case);
@@ -802,7 +825,7 @@ pub fn replay(run: &Run, stage: &str, tape: Option<&[u16]>, v: &Value) -> Option
 		("histories", Some(t), _) => history_case(&mut Src::new(t)),
 		("recursion-sweep", _, Some(i)) => {
 			let (s, l, n, ok) = *sweep_points(run).get(i as usize)?;
-			sweep_case(s, l, n, ok)
+			sweep_case(run, s, l, n, ok)
 		}
 		("nesting-depth", _, Some(i)) => {
 			let (nest, s, d) = *depth_points().get(i as usize)?;
